@@ -1,0 +1,35 @@
+//go:build verif
+// +build verif
+
+// Package verifpoint provides named pause points for verification harnesses.
+// This file is only compiled with -tags verif.
+package verifpoint
+
+import "sync/atomic"
+
+// Handler is called at every Hit/HitArg while installed.
+type Handler func(name string, arg interface{})
+
+var handler atomic.Value // Handler
+
+// SetHandler installs h (nil removes the handler).
+func SetHandler(h Handler) {
+	if h == nil {
+		h = func(string, interface{}) {}
+	}
+	handler.Store(h)
+}
+
+// Hit marks a named point in the code.
+func Hit(name string) {
+	if h, ok := handler.Load().(Handler); ok && h != nil {
+		h(name, nil)
+	}
+}
+
+// HitArg is like Hit but carries an argument identifying the object at the point.
+func HitArg(name string, arg interface{}) {
+	if h, ok := handler.Load().(Handler); ok && h != nil {
+		h(name, arg)
+	}
+}
